@@ -10,6 +10,7 @@ import (
 	"iter"
 	"maps"
 	"os"
+	"path/filepath"
 	"slices"
 	"strings"
 	"sync"
@@ -105,7 +106,32 @@ func (s *ManagedServer) saveToFile() error {
 	}
 	b = append(b, '\n') // b has plenty of unused capacity.
 
-	if err = os.WriteFile(s.path, b, 0644); err != nil {
+	// Write to a temporary file in the same directory and rename it over the
+	// credential file, so that a crash or a failed write never leaves behind
+	// a truncated or partially written credential file.
+	perm := os.FileMode(0644)
+	if fi, err := os.Stat(s.path); err == nil {
+		perm = fi.Mode().Perm()
+	}
+	f, err := os.CreateTemp(filepath.Dir(s.path), filepath.Base(s.path)+".*.tmp")
+	if err != nil {
+		return err
+	}
+	_, err = f.Write(b)
+	if err == nil {
+		err = f.Chmod(perm)
+	}
+	if err == nil {
+		err = f.Sync()
+	}
+	if cerr := f.Close(); err == nil {
+		err = cerr
+	}
+	if err == nil {
+		err = os.Rename(f.Name(), s.path)
+	}
+	if err != nil {
+		_ = os.Remove(f.Name())
 		return err
 	}
 
